@@ -742,3 +742,150 @@ def pytypes_new_class(name, bases, ns):
     import types as _t
 
     return _t.new_class(name, bases, {}, lambda d: d.update(ns))
+
+
+# ------------------------------------------------------------------------------------------- S8
+def verify_field_alias(pid, path=BUILDER):
+    """builder.py:CodeBuilder.__get_field_alias - the alias of a field is
+         metadata['alias']                                   if present (not None)
+         else the name of an Alias(...) among the Annotated metadata of the field type, if any (which one of several is not fixed by the property)
+         else Config.aliases.get(fname)
+       Loop rule (invariant): alias = lastAlias(annotations[:i]); body triple: alias' = ann.name if ann is an Alias else alias."""
+    import mashumaro.core.meta.code.builder as B
+
+    unit = "builder.py:CodeBuilder.__get_field_alias"
+    oid = f"{pid}.S8[__get_field_alias]/precedence"
+    try:
+        fn, _ = _method(path, "CodeBuilder", "__get_field_alias")
+    except LookupError as e:
+        return [_ob(oid, "undecided", unit, str(e))]
+    loops = [n for n in ast.walk(fn) if isinstance(n, ast.For)]
+    if len(loops) != 1 or not isinstance(loops[0].target, ast.Name) or not isinstance(loops[0].iter, ast.Name) or loops[0].orelse:
+        return [_ob(oid, "undecided", unit, "the function no longer has the single loop over the Annotated metadata")]
+    loop = loops[0]
+    eng = pysym.Engine()
+    V = eng.V
+    fname, ftype, md, cfg = eng.fresh("fname"), eng.fresh("ftype"), eng.fresh("metadata"), eng.fresh("config")
+    none = eng.const(None)
+    LOOPRES = eng.fresh("alias_after_loop")
+    accvar = None
+    # which variable does the loop body assign?  (the accumulator)
+    assigned = {t.id for n in ast.walk(loop) for t in (n.targets if isinstance(n, ast.Assign) else []) if isinstance(t, ast.Name)}
+    if len(assigned) != 1:
+        return [_ob(oid, "undecided", unit, f"loop body assigns {sorted(assigned)}: expected exactly the alias accumulator")]
+    accvar = next(iter(assigned))
+    at_loop = []
+
+    class Ex(pysym.Executor):
+        def st_For(self, s, st):
+            if s is loop:
+                at_loop.append(st.clone())
+                st2 = st.clone()
+                st2.env[accvar] = Tm(LOOPRES)  # havoc the accumulator: its value is given by the loop summary
+                st2.env["__looped__"] = Ob(True)
+                return [(st2, None)]
+            return super().st_For(s, st)
+
+    def mkex():
+        ex = Ex(eng, dict(B.__dict__))
+        ex.assume_hasattr = True
+        ex.nonraising_prefixes = ("",)
+        ex.nonraising.add(_const_key(B.is_annotated))
+        ex.nonraising.add(_const_key(B.get_type_annotations))
+        return ex
+
+    try:
+        paths = mkex().run(fn, {"fname": Tm(fname), "ftype": Tm(ftype), "metadata": Tm(md), "config": Tm(cfg)})
+    except pysym.NotInSubset as e:
+        return [_ob(oid, "undecided", unit, f"outside the verified subset: {e}")]
+    prover = pysym.Prover(eng, 10000)
+    attr = lambda o, n: eng.func(f"attr!{n}", V, V)(o)  # noqa
+    get = lambda m, k: z3.If(eng.haskey(m, k), eng.dval(m, k), none)  # noqa
+    m_alias = get(md, eng.const("alias"))
+    annotated = eng.truth(Call(_const_key(B.is_annotated), pysym._short(B.is_annotated), [Tm(ftype)]))
+    c_alias = get(attr(cfg, "aliases"), fname)
+    # LOOPRES stands for lastAlias(annotations) or the value before the loop (None) when there is none
+    want = z3.If(m_alias != none, m_alias, z3.If(z3.And(annotated, LOOPRES != none), LOOPRES, c_alias))
+    bad = []
+    for st in at_loop:
+        pc = st.pc + st.hyps
+        if prover.sat(pc)[0] == z3.unsat:
+            continue
+        # loop entered only when metadata gives no alias and the type is Annotated; accumulator starts as None; iterates the type's annotations
+        if prover.prove("e", pc, z3.And(m_alias == none, annotated)).status != "proved":
+            bad.append("the Annotated aliases are consulted although the field metadata has an alias (or the type is not Annotated)")
+        if prover.prove("e", pc, eng.term(st.env[accvar]) == none).status != "proved":
+            bad.append("the accumulator is not None at loop entry")
+        src = st.env.get(loop.iter.id)
+        wants = eng.term(Call(_const_key(B.get_type_annotations), pysym._short(B.get_type_annotations), [Tm(ftype)]))
+        if src is None or prover.prove("e", pc, eng.term(src) == wants).status != "proved":
+            bad.append("the loop does not iterate get_type_annotations(ftype)")
+    live = 0
+    for p in paths:
+        if prover.sat(p.pc)[0] == z3.unsat:
+            continue
+        live += 1
+        if p.kind != "return":
+            bad.append(f"a path raises {p.value!r}"[:120])
+            continue
+        looped = "__looped__" in p.env
+        hyp = list(p.pc) + ([] if looped else [z3.Or(m_alias != none, z3.Not(annotated))])
+        if not looped and prover.prove("n", p.pc, z3.Or(m_alias != none, z3.Not(annotated))).status != "proved":
+            bad.append("the Annotated aliases are skipped although the metadata has no alias and the type is Annotated")
+            continue
+        if prover.prove("r", hyp, eng.term(p.value) == want).status != "proved":
+            bad.append("the result is not metadata alias > Annotated Alias > Config.aliases")
+    obs = [_ob(oid, "undecided" if not live else ("refuted" if bad else "proved"), unit, "; ".join(sorted(set(bad))), paths=live, witness=_alias_witness() if bad else None)]
+    # body triple
+    oid2 = f"{pid}.S8[__get_field_alias]/annotated-alias-taken"
+    from mashumaro.types import Alias
+
+    acc0, ann = eng.fresh("acc"), eng.fresh("ann")
+    st0 = pysym.State({"fname": Tm(fname), "ftype": Tm(ftype), "metadata": Tm(md), "config": Tm(cfg), accvar: Tm(acc0), loop.target.id: Tm(ann), loop.iter.id: Tm(eng.fresh("anns"))}, [])
+    try:
+        res = mkex().exec_block(loop.body, st0)
+    except pysym.NotInSubset as e:
+        return obs + [_ob(oid2, "undecided", unit, f"outside the verified subset: {e}")]
+    is_alias = eng.issub(eng.typeof(ann), eng.const(Alias))
+    nm = attr(ann, "name")
+    # the statement fixes the precedence between the three sources, not between several Alias annotations of
+    # one field: an Alias is taken when none was found yet, a later one may or may not replace it, anything
+    # else leaves the accumulator alone; leaving the loop early is fine once an Alias has been taken
+    bad = []
+    for st, sig in res:
+        pc = st.pc + st.hyps
+        if prover.sat(pc)[0] == z3.unsat:
+            continue
+        acc1 = eng.term(st.env[accvar])
+        ok_val = z3.And(z3.Implies(z3.Not(is_alias), acc1 == acc0), z3.Implies(z3.And(is_alias, acc0 == none), acc1 == nm),
+                        z3.Implies(z3.And(is_alias, acc0 != none), z3.Or(acc1 == acc0, acc1 == nm)))
+        if prover.prove("b", pc, ok_val).status != "proved":
+            bad.append("one iteration does not take the Alias annotation's name (or changes the alias for a non-Alias annotation)")
+        if sig is not None and sig[0] == "break":
+            if prover.prove("b", pc, is_alias).status != "proved" and prover.prove("b", pc, acc1 != none).status != "proved":
+                bad.append("the loop is left before an Alias annotation was found")
+        elif sig is not None and sig[0] != "continue":
+            bad.append(f"the loop body escapes ({sig[0]})")
+    obs.append(_ob(oid2, "refuted" if bad else "proved", unit + " (loop body; invariant: alias is None or the name of an Alias in the prefix)", "; ".join(sorted(set(bad))), witness=_alias_witness() if bad else None))
+    return obs
+
+
+def _alias_witness():
+    import itertools
+    from dataclasses import dataclass, field
+    from typing import Annotated
+
+    from mashumaro import DataClassDictMixin
+    from mashumaro.config import BaseConfig
+    from mashumaro.types import Alias
+
+    for m, a, c in itertools.product((None, "M"), ((), ("A1",), ("A1", "A2")), (None, "C")):
+        ann = int if not a else Annotated[(int,) + tuple(Alias(x) for x in a)]
+        ns = {"__annotations__": {"x": ann}, "x": field(default=0, metadata=({"alias": m} if m else {})),
+              "Config": type("Config", (BaseConfig,), {"serialize_by_alias": True, **({"aliases": {"x": c}} if c else {})})}
+        K = dataclass(type("K", (DataClassDictMixin,), ns))
+        want = [m] if m else (list(a) if a else ([c] if c else ["x"]))
+        got = list(K(1).to_dict())[0]
+        if got not in want:
+            return {"confirmed": True, "input": f"metadata alias={m!r}, Annotated aliases={a!r}, Config.aliases={c!r}", "why": f"serialized key {got!r}, expected {want!r}"}
+    return None
